@@ -17,7 +17,7 @@ prop(
     "C11",
     level="proof",
     design_ref="DESIGN.md section 3, C11",
-    groups=[(["./plugin/input/http"], r"^(\(\*Plugin\)\.(processChunk|processBulk|newReadBuff|newEventBuffs|serveBulk|getSourceID|putSourceID)|newMetaInformation)$")],
+    groups=[(["./plugin/input/http"], r"^(\(\*Plugin\)\.(processChunk|processBulk|newReadBuff|newEventBuffs|serveBulk|getSourceID|putSourceID|ServeHTTP|auth|authBasic|authBearer|acquireGzipReader)|newMetaInformation|getUserIP|\(\*CORSConfig\)\.getAllowedByOrigin)$")],
     canaries=[("./plugin/input/http", "replay/C11/zz_content_encoding_case_test.go", "TestVerifContentEncodingAnyCase")],
     claim=(
         "For every request body, every chunking of it into reads (io.Reader.Read may return any n) and every buffer state, "
@@ -97,7 +97,7 @@ prop(
     "C10",
     level="proof",
     design_ref="DESIGN.md section 3, C10",
-    groups=[(["./plugin/input/kafka"], r"^(assembleSourceID|disassembleSourceID|assembleOffset|disassembleOffset|\(\*Plugin\)\.Commit|\(\*Plugin\)\.Start|\(\*pconsumer\)\.consume)$")],
+    groups=[(["./plugin/input/kafka"], r"^(assembleSourceID|disassembleSourceID|assembleOffset|disassembleOffset|\(\*Plugin\)\.Commit|\(\*Plugin\)\.Start|\(\*pconsumer\)\.consume|\(\*Plugin\)\.Stop|\(\*splitConsume\)\.(Assigned|Lost|consume|consume\$1)|NewClient|newMetaInformation|\(metaInformation\)\.GetData)$")],
     claim=(
         "Packing clauses of C10, for all topic indices / offsets below 2^47 and partitions / leader epochs 0..65535: the four packing functions are verified with exact 64-bit bit-vector semantics "
         "(source id = index*2^16+partition, offset = recordOffset*2^16+epoch, both decode back exactly); consume hands every record to In with exactly that id/offset and the record's own value; "
@@ -120,7 +120,7 @@ prop(
     design_ref="DESIGN.md section 3, C09",
     groups=[(["./pipeline"], r"^(\(\*RetriableBatcher\)\.Out|\(\*Batch\)\.reset|\(\*Router\)\.(Stop|Fail|IsDeadQueueAvailable|Start))$"),
             (["./fd"], r"^\(\*FileD\)\.getStaticInfo$"),
-            (["./plugin/output/elasticsearch", "./pipeline"], r"^\(\*Plugin\)\.(out|Start|Start\$1)$"),
+            (["./plugin/output/elasticsearch", "./pipeline"], r"^\(\*Plugin\)\.(out|Start|Start\$1|send|reportESErrors)$"),
             (["./plugin/output/gelf"], r"^\(\*Plugin\)\.(maintenance|out)$")],
     canaries=[("./plugin/output/gelf", "replay/C09/zz_gelf_maintenance_nil_client_test.go", "TestVerifGelfMaintenanceWithoutClient"),
               ("./pipeline", "replay/C09/zz_replay_c09_test.go", "TestVerifReplayC09"),
@@ -341,9 +341,9 @@ prop(
     level="other",
     design_ref="DESIGN.md section 3, C19",
     groups=[(["./pipeline"], r"^(\(\*Batch\)\.ForEach|\(\*Event\)\.reset)$"),
-            (["./plugin/output/elasticsearch"], r"^(\(\*Plugin\)\.(sendSplit|appendIndexName|appendEvent|out|out\$1|Start|Start\$1)|appendEscaped)$"),
+            (["./plugin/output/elasticsearch"], r"^(\(\*Plugin\)\.(sendSplit|appendIndexName|appendEvent|out|out\$1|Start|Start\$1|send)|appendEscaped|prepareEndpoints)$"),
             (["./plugin/output/http", "./pipeline"], r"^(\(\*Plugin\)\.(sendSplit|out|out\$1)|\(\*(Raw|JSON)Encoder\)\.Encode)$"),
-            (["./plugin/output/kafka", "./pipeline"], r"^\(\*Plugin\)\.(out|out\$1)$"),
+            (["./plugin/output/kafka", "./pipeline"], r"^\(\*Plugin\)\.(out|out\$1|Start|Start\$1)$"),
             (["./plugin/output/gelf"], r"^\(\*Plugin\)\.(formatExtraField|makeTimestampField|out|out\$1|formatEvent|makeExtraFields|makeBaseField|makeLevelField|isBlank)$"),
             (["./plugin/output/splunk"], r"^(\(\*Plugin\)\.(out|out\$1)|parseSplunkError)$"),
             (["./plugin/output/loki"], r"^\(\*Plugin\)\.(out|out\$1|send|isUnixNanoFormat|parseLabels|getCustomHeaders)$"),
